@@ -178,21 +178,27 @@ Definition nonempty (s : bytes) : bool := match s with [] => false | _ => true e
 Definition ser_of (rst : Z) : N := Z.to_N (rst mod 16)%Z.
 Definition comp_of (ct : Z) : N := Z.to_N (ct mod 8)%Z.
 
+(* a header that is absent (h.Get returns "") keeps the default; one that is present must parse *)
+Definition hdr_uint (s : bytes) : option N := match s with [] => Some 0 | _ => parse_uint64 s end.
+Definition hdr_int (s : bytes) : option Z := match s with [] => Some 0%Z | _ => atoi s end.
+Definition hdr_meta (s : bytes) : option (list (bytes * bytes)) :=
+  match s with
+  | [] => Some []
+  | _ => let '(kvs, err) := parse_query s in if err then None else Some (first_vals [] kvs)
+  end.
+
 (* HTTPRequest2RpcxRequest: None = an error is returned *)
 Definition http_to_req (h : ghdr) (body : bytes) : option greq :=
-  match (match h_id h with [] => Some 0 | s => parse_uint64 s end) with
+  match hdr_uint (h_id h) with
   | None => None
   | Some seq =>
-    match (match h_ser h with [] => Some 0%Z | s => atoi s end) with
+    match hdr_int (h_ser h) with
     | None => None
     | Some st =>
-      match (match h_comp h with [] => Some 0%Z | s => atoi s end) with
+      match hdr_int (h_comp h) with
       | None => None
       | Some ct =>
-        match (match h_meta h with
-               | [] => Some []
-               | s => let '(kvs, err) := parse_query s in if err then None else Some (first_vals [] kvs)
-               end) with
+        match hdr_meta (h_meta h) with
         | None => None
         | Some meta =>
           let meta' := if nonempty (h_auth h) then mset AUTH_KEY (h_auth h) meta else meta in
